@@ -4,4 +4,4 @@
 From Coq Require Import NArith.
 From Sim Require Import Integrator.
 Definition gen_sim_facts : sim_facts :=
-  mkSimFacts FrameAbs CmpLe FrameAbs CmpLe CmpGe true true false true false 100%N 1000%N CmpLe CmpGt CmpLe true true.
+  mkSimFacts FrameAbs CmpLe FrameAbs CmpLe CmpGe true true false true false 100%N 1000%N CmpLe CmpGt CmpLe true true true.
